@@ -142,7 +142,11 @@ def _blocks(tier):
   B['dense'] = [dict(kind=['dense'], nin=[1, 3], nout=[1, 2], bias=[0, 1], nb=[0, 1, 2])]
   B['densegeneral'] = [
     dict(kind=['densegeneral'], shape=[[2, 2, 3], [2, 3]], feats=[2, [2, 2]],
-         axis=[-1, [-2, -1], [0]], bdims=[[], [0]], bias=[0, 1])]
+         axis=[-1, [-2, -1], [0]], bdims=[[], [0]], bias=[0, 1]),
+    # contracted axes listed in non-ascending order (the kernel dims follow the sorted axes);
+    # equal sizes, so a wrong pairing is silent
+    dict(kind=['densegeneral'], shape=[[2, 3, 3], [3, 3]], feats=[2, [2, 2]],
+         axis=[[-1, -2]], bdims=[[], [0]], bias=[0, 1])]
   B['einsum'] = [
     dict(kind=['einsum'], bias=[0, 1], at=['ctor', 'call'],
          eq=[['abc,cde->abde', [2, 2, 3], [3, 2, 2]],
